@@ -293,6 +293,7 @@ class Check:
         self.rng = random.Random(self.seed * 1000003 + int(hashlib.sha256(prop_id.encode()).hexdigest()[:8], 16))
         self.t0 = time.time()
         self.violations = []      # (what, replay_path, no_input)
+        self.max_violations = int(os.environ.get("VERIF_MAX_VIOLATIONS", "12"))
         self.known_hits = []
         self.proof_problems = []
         self.tie_problems = []
@@ -357,7 +358,7 @@ class Check:
             if sig not in [h[0] for h in self.known_hits]:
                 self.known_hits.append((sig, k.get("what_fails", what)))
             return
-        if len(self.violations) >= 12:
+        if len(self.violations) >= self.max_violations:
             return
         name = "%d_%d" % (self.seed, len(self.violations))
         replay_obj = dict(replay_obj)
